@@ -60,6 +60,8 @@ type Loader struct {
 	file     Resource             // source, needed to parse each table
 	fileSize int64                // used to bound the length of the tables
 	tables   map[Tag]tableSection // header only, contents is processed on demand
+	// number of entries of the table directory, duplicated tags included
+	directoryEntries int
 
 	// Type represents the kind of this font being loaded.
 	// It is one of TrueType, TrueTypeApple, PostScript1, OpenType
@@ -128,12 +130,16 @@ func NewLoaders(file Resource) ([]*Loader, error) {
 		if err != nil {
 			return nil, err
 		}
-		directoriesSize += 16 * int64(len(out[i].tables))
+		directoriesSize += 16 * int64(out[i].directoryEntries)
 		if directoriesSize > out[i].fileSize {
 			return nil, errors.New("invalid collection: overlapping table directories")
 		}
 		for _, section := range out[i].tables {
-			tablesSize += int64(section.length)
+			if section.zLength > section.length { // compressed table (WOFF)
+				tablesSize += int64(section.zLength)
+			} else {
+				tablesSize += int64(section.length)
+			}
 		}
 		if tablesSize > maxSharing*out[i].fileSize {
 			return nil, errors.New("invalid collection: too many shared tables")
